@@ -55,6 +55,8 @@ pub enum Op {
     WMatch { t: usize, r: String, q: String, fin: bool },
     /// the Jaccard pre-filter of the word matcher (thread-local scratch) on its own
     JCheck { t: usize, r: String, q: String, fin: bool },
+    /// `n` identical pre-filter calls in a row (thread-local scratch)
+    JBurst { t: usize, r: String, q: String, fin: bool, n: usize },
 }
 
 impl Op {
@@ -85,6 +87,7 @@ impl Op {
             Op::Jacc { .. } => "jacc",
             Op::WMatch { .. } => "wmatch",
             Op::JCheck { .. } => "jcheck",
+            Op::JBurst { .. } => "jburst",
         }
     }
 
@@ -115,6 +118,7 @@ impl Op {
             Op::Jacc { t, a, b } => json!({"op":"jacc","t":t,"a":a,"b":b}),
             Op::WMatch { t, r, q, fin } => json!({"op":"wmatch","t":t,"r":r,"q":q,"fin":fin}),
             Op::JCheck { t, r, q, fin } => json!({"op":"jcheck","t":t,"r":r,"q":q,"fin":fin}),
+            Op::JBurst { t, r, q, fin, n } => json!({"op":"jburst","t":t,"r":r,"q":q,"fin":fin,"n":n}),
         }
     }
 
@@ -148,6 +152,7 @@ impl Op {
             "r_read" => Op::RRead { t: gu(o, "t")?, id: gid(o)? },
             "dist" => Op::Dist { t: gu(o, "t")?, a: gs(o, "a")?, ca: gs(o, "ca")?, b: gs(o, "b")?, cb: gs(o, "cb")? },
             "jacc" => Op::Jacc { t: gu(o, "t")?, a: gs(o, "a")?, b: gs(o, "b")? },
+            "jburst" => Op::JBurst { t: gu(o, "t")?, r: gs(o, "r")?, q: gs(o, "q")?, fin: o.get("fin").and_then(|x| x.as_bool()).unwrap_or(true), n: gu(o, "n")? },
             "jcheck" => Op::JCheck { t: gu(o, "t")?, r: gs(o, "r")?, q: gs(o, "q")?, fin: o.get("fin").and_then(|x| x.as_bool()).unwrap_or(true) },
             "wmatch" => Op::WMatch { t: gu(o, "t")?, r: gs(o, "r")?, q: gs(o, "q")?, fin: o.get("fin").and_then(|x| x.as_bool()).unwrap_or(true) },
             other => return Err(format!("unknown op kind {}", other)),
